@@ -184,9 +184,76 @@ func c10Enc(f func(b *codec.Buffer)) []byte {
 	return b.ToBytes()
 }
 
-// ---------- request encoding (reference encoders: the repository's codec, tup, encoding/json) ----------
+// ---------- the scripted functions of harness/idl/c10.tars: one per shape of signature ----------
+type c10Param struct {
+	Name string
+	Str  bool // string (else int)
+	Out  bool
+}
+type c10Shape struct {
+	Ret    bool
+	Params []c10Param
+}
+
+func c10P(spec string) []c10Param { // "token kind code msg sleepMs >echo >n"
+	var ps []c10Param
+	for _, w := range strings.Fields(spec) {
+		out := strings.HasPrefix(w, ">")
+		w = strings.TrimPrefix(w, ">")
+		ps = append(ps, c10Param{Name: w, Str: w == "msg" || w == "echo", Out: out})
+	}
+	return ps
+}
+
+var c10Shapes = map[string]c10Shape{
+	"act":    {true, c10P("token kind code msg sleepMs >echo")},
+	"notify": {false, c10P("token kind code msg sleepMs")},
+	"fetch":  {false, c10P("token kind code msg sleepMs >echo >n")},
+	"calc":   {true, c10P("token kind code msg sleepMs")},
+	"mixed":  {true, c10P("token >echo kind code >n msg sleepMs")},
+}
+var c10ShapeNames = []string{"act", "notify", "fetch", "calc", "mixed"}
+
+func c10PickFn(rng *rand.Rand) string { return c10ShapeNames[rng.Intn(len(c10ShapeNames))] }
+
+func c10Scripted(fn string) bool { _, ok := c10Shapes[fn]; return ok }
+
+// value of a parameter: in parameters from the request's script, out parameters / return value as the servant computes them
+func c10ParamInt(q *c10Req, name string) int32 {
+	switch name {
+	case "token":
+		return q.Token
+	case "kind":
+		return q.Kind
+	case "code":
+		return q.Code
+	case "sleepMs":
+		return q.SleepMs
+	case "n":
+		return q.Token ^ 0x5a5a
+	}
+	return 0
+}
+func c10ParamStr(q *c10Req, name string) string {
+	if name == "echo" {
+		return "e:" + string(q.Msg)
+	}
+	return string(q.Msg)
+}
+func c10EncParam(q *c10Req, p c10Param, tag byte) []byte {
+	return c10Enc(func(b *codec.Buffer) {
+		if p.Str {
+			b.WriteString(c10ParamStr(q, p.Name), tag)
+		} else {
+			b.WriteInt32(c10ParamInt(q, p.Name), tag)
+		}
+	})
+}
+
+// ---------- request encoding (reference encoders: the repository's codec primitives, encoding/json) ----------
 func c10ArgsPayload(q *c10Req) []byte {
-	if q.Func != "act" {
+	sh, ok := c10Shapes[q.Func]
+	if !ok {
 		switch q.Ver {
 		case c10VerTup:
 			return c10TupEncode(nil)
@@ -197,28 +264,39 @@ func c10ArgsPayload(q *c10Req) []byte {
 	}
 	switch q.Ver {
 	case c10VerTup:
-		es := []c10TupEntry{
-			{"token", c10Enc(func(b *codec.Buffer) { b.WriteInt32(q.Token, 0) })},
-			{"kind", c10Enc(func(b *codec.Buffer) { b.WriteInt32(q.Kind, 0) })},
-			{"code", c10Enc(func(b *codec.Buffer) { b.WriteInt32(q.Code, 0) })},
-			{"msg", c10Enc(func(b *codec.Buffer) { b.WriteString(string(q.Msg), 0) })},
-			{"sleepMs", c10Enc(func(b *codec.Buffer) { b.WriteInt32(q.SleepMs, 0) })},
+		var es []c10TupEntry
+		for _, p := range sh.Params {
+			if !p.Out {
+				es = append(es, c10TupEntry{p.Name, c10EncParam(q, p, 0)})
+			}
 		}
 		// any entry order is a well-formed request: rotate by the token
 		k := int(q.Token) % len(es)
 		return c10TupEncode(append(append([]c10TupEntry{}, es[k:]...), es[:k]...))
 	case c10VerJSON:
-		j, _ := json.Marshal(map[string]interface{}{"token": q.Token, "kind": q.Kind, "code": q.Code, "msg": string(q.Msg), "sleepMs": q.SleepMs})
+		m := map[string]interface{}{}
+		for _, p := range sh.Params {
+			if p.Out {
+				continue
+			}
+			if p.Str {
+				m[p.Name] = c10ParamStr(q, p.Name)
+			} else {
+				m[p.Name] = c10ParamInt(q, p.Name)
+			}
+		}
+		j, _ := json.Marshal(m)
 		return j
 	}
-	// TARS (and, for the extended stream, any other version: the dispatcher refuses those before reading)
-	b := codec.NewBuffer()
-	b.WriteInt32(q.Token, 1)
-	b.WriteInt32(q.Kind, 2)
-	b.WriteInt32(q.Code, 3)
-	b.WriteString(string(q.Msg), 4)
-	b.WriteInt32(q.SleepMs, 5)
-	return b.ToBytes()
+	// TARS (and, for the extended stream, any other version: the dispatcher refuses those before reading):
+	// every in parameter at the tag of its position in the signature
+	var out []byte
+	for i, p := range sh.Params {
+		if !p.Out {
+			out = append(out, c10EncParam(q, p, byte(i+1))...)
+		}
+	}
+	return out
 }
 
 func c10Frame(body []byte) []byte {
@@ -250,27 +328,42 @@ type c10Run struct {
 }
 
 func c10OkPayload(q *c10Req) []byte {
-	act := q.Func == "act"
+	sh := c10Shapes[q.Func] // zero shape for nop
+	ret := c10Enc(func(b *codec.Buffer) { b.WriteInt32(q.Code, 0) })
 	switch q.Ver {
 	case c10VerTars:
-		b := codec.NewBuffer()
-		if act {
-			b.WriteInt32(q.Code, 0)
-			b.WriteString("e:"+string(q.Msg), 6)
+		var out []byte
+		if sh.Ret {
+			out = append(out, ret...)
 		}
-		return b.ToBytes()
+		for i, p := range sh.Params {
+			if p.Out {
+				out = append(out, c10EncParam(q, p, byte(i+1))...)
+			}
+		}
+		return out
 	case c10VerTup:
 		var es []c10TupEntry
-		if act {
-			ret := c10Enc(func(b *codec.Buffer) { b.WriteInt32(q.Code, 0) })
-			es = []c10TupEntry{{"", ret}, {"tars_ret", ret}, {"echo", c10Enc(func(b *codec.Buffer) { b.WriteString("e:"+string(q.Msg), 0) })}}
+		if sh.Ret {
+			es = append(es, c10TupEntry{"", ret}, c10TupEntry{"tars_ret", ret})
+		}
+		for _, p := range sh.Params {
+			if p.Out {
+				es = append(es, c10TupEntry{p.Name, c10EncParam(q, p, 0)})
+			}
 		}
 		return c10TupEncode(es)
 	case c10VerJSON:
 		m := map[string]interface{}{}
-		if act {
+		if sh.Ret {
 			m["tars_ret"] = q.Code
-			m["echo"] = "e:" + string(q.Msg)
+		}
+		for _, p := range sh.Params {
+			if p.Out && p.Str {
+				m[p.Name] = c10ParamStr(q, p.Name)
+			} else if p.Out {
+				m[p.Name] = c10ParamInt(q, p.Name)
+			}
 		}
 		j, _ := json.Marshal(m)
 		return j
@@ -279,8 +372,8 @@ func c10OkPayload(q *c10Req) []byte {
 }
 
 func c10Script(q *c10Req) c10Run {
-	switch q.Func {
-	case "act":
+	switch {
+	case c10Scripted(q.Func):
 		if !c10IsKnownVer(q.Ver) {
 			return c10Run{Class: "disp-error", Code: 1}
 		}
@@ -298,7 +391,7 @@ func c10Script(q *c10Req) c10Run {
 			r.Class, r.Buf = "ok", c10OkPayload(q)
 		}
 		return r
-	case "nop", "tars_ping":
+	case q.Func == "nop" || q.Func == "tars_ping":
 		return c10Run{Class: "ok", Buf: c10OkPayload(&c10Req{Ver: q.Ver, Func: "nop"})}
 	}
 	return c10Run{Class: "disp-error", Code: 1}
@@ -394,61 +487,107 @@ func c10MapEq(a, b map[string]string) bool {
 	return true
 }
 
-// payload of a successful call, decoded with the repository's own decoders
+// payload of a successful call: return value and every out parameter, decoded with the codec primitives / encoding/json
 func c10PayloadOk(q *c10Req, buf []byte) string {
-	if q.Func != "act" {
+	sh, ok := c10Shapes[q.Func]
+	if !ok || !c10IsKnownVer(q.Ver) {
 		return ""
 	}
-	wantRet, wantEcho := q.Code, "e:"+string(q.Msg)
-	var ret int32
-	var echo string
+	type item struct {
+		what string
+		str  bool
+		tag  byte   // TARS
+		key  string // TUP / JSON
+		wi   int32
+		ws   string
+	}
+	var items []item
+	if sh.Ret {
+		items = append(items, item{what: "return value", tag: 0, key: "tars_ret", wi: q.Code})
+	}
+	for i, p := range sh.Params {
+		if p.Out {
+			items = append(items, item{what: "out parameter " + p.Name, str: p.Str, tag: byte(i + 1), key: p.Name, wi: c10ParamInt(q, p.Name), ws: c10ParamStr(q, p.Name)})
+		}
+	}
+	read := func(rd *codec.Reader, it item, tag byte) string {
+		if it.str {
+			var v string
+			if err := rd.ReadString(&v, tag, true); err != nil {
+				return "no " + it.what + " in the payload"
+			}
+			if v != it.ws {
+				return fmt.Sprintf("%s is %q, the implementation produced %q", it.what, v, it.ws)
+			}
+			return ""
+		}
+		var v int32
+		if err := rd.ReadInt32(&v, tag, true); err != nil {
+			return "no " + it.what + " in the payload"
+		}
+		if v != it.wi {
+			return fmt.Sprintf("%s is %d, the implementation produced %d", it.what, v, it.wi)
+		}
+		return ""
+	}
 	switch q.Ver {
 	case c10VerTars:
 		rd := codec.NewReader(buf)
-		if err := rd.ReadInt32(&ret, 0, true); err != nil {
-			return "no return value in the payload"
+		for _, it := range items {
+			if m := read(rd, it, it.tag); m != "" {
+				return m
+			}
 		}
-		if err := rd.ReadString(&echo, 6, true); err != nil {
-			return "no out parameter in the payload"
+		if len(items) == 0 && len(buf) != 0 {
+			return fmt.Sprintf("%d bytes of payload for a function without results", len(buf))
 		}
 	case c10VerTup:
 		m, err := c10TupDecode(buf)
 		if err != nil {
 			return "payload is not a TUP attribute map"
 		}
-		b, ok := m["tars_ret"]
-		if !ok {
-			return "no tars_ret in the TUP payload"
+		want := len(items)
+		for _, it := range items {
+			b, ok := m[it.key]
+			if !ok {
+				return "no entry " + it.key + " in the TUP payload"
+			}
+			if msg := read(codec.NewReader(b), it, 0); msg != "" {
+				return msg
+			}
+			if it.key == "tars_ret" {
+				want++
+				if b0, ok := m[""]; !ok || !bytes.Equal(b0, b) {
+					return "the TUP payload's entry \"\" (return value under the empty name) is missing or differs from tars_ret"
+				}
+			}
 		}
-		if err := codec.NewReader(b).ReadInt32(&ret, 0, true); err != nil {
-			return "tars_ret unreadable"
-		}
-		if b0, ok := m[""]; !ok || !bytes.Equal(b0, b) {
-			return "the TUP payload's entry \"\" (return value under the empty name) is missing or differs from tars_ret"
-		}
-		if b, ok = m["echo"]; !ok {
-			return "no echo in the TUP payload"
-		}
-		if err := codec.NewReader(b).ReadString(&echo, 0, true); err != nil {
-			return "echo unreadable"
-		}
-		if len(m) != 3 {
-			return fmt.Sprintf("%d entries in the TUP payload, expected 3", len(m))
+		if len(m) != want {
+			return fmt.Sprintf("%d entries in the TUP payload, expected %d", len(m), want)
 		}
 	case c10VerJSON:
-		var m struct {
-			Ret  int32  `json:"tars_ret"`
-			Echo string `json:"echo"`
+		var m map[string]interface{}
+		dec := json.NewDecoder(bytes.NewReader(buf))
+		dec.UseNumber()
+		if err := dec.Decode(&m); err != nil {
+			return "payload is not a JSON object"
 		}
-		if err := json.Unmarshal(buf, &m); err != nil {
-			return "payload is not JSON"
+		for _, it := range items {
+			v, ok := m[it.key]
+			if !ok {
+				return "no member " + it.key + " in the JSON payload"
+			}
+			if it.str {
+				if sv, ok := v.(string); !ok || sv != it.ws {
+					return fmt.Sprintf("%s is %v, the implementation produced %q", it.what, v, it.ws)
+				}
+			} else if nv, ok := v.(json.Number); !ok || nv.String() != fmt.Sprint(it.wi) {
+				return fmt.Sprintf("%s is %v, the implementation produced %d", it.what, v, it.wi)
+			}
 		}
-		ret, echo = m.Ret, m.Echo
-	default:
-		return ""
-	}
-	if ret != wantRet || echo != wantEcho {
-		return fmt.Sprintf("payload carries ret=%d echo=%q, the implementation returned ret=%d echo=%q", ret, echo, wantRet, wantEcho)
+		if len(m) != len(items) {
+			return fmt.Sprintf("%d members in the JSON payload, expected %d", len(m), len(items))
+		}
 	}
 	return ""
 }
@@ -544,7 +683,7 @@ func c10CheckReq(s *c10Scn, where string, timingScn bool, q *c10Req, clause stri
 		}
 		wantInv := 0
 		lateInvoke := s.Cfg.HT > 0 && int(q.Pre) >= s.Cfg.HT // Invoke is entered after the deadline: it answers with the queue-timeout code itself and does not dispatch
-		if clause != "queue-timeout" && clause != "ping" && !lateInvoke && q.Func == "act" && c10IsKnownVer(q.Ver) {
+		if clause != "queue-timeout" && clause != "ping" && !lateInvoke && c10Scripted(q.Func) && c10IsKnownVer(q.Ver) {
 			wantInv = 1
 		}
 		if q.Invoked != wantInv {
@@ -671,7 +810,7 @@ func c10Coq(s *c10Scn) string {
 				alts = append(alts, fmt.Sprintf("(%d, %d)", a.Queued, c10Script(&a).Dur))
 			}
 		}
-		rs = append(rs, fmt.Sprintf("{| k_pkg := %s; k_queued := %d; k_run := %s; k_alts := [%s]; k_trace := %s; k_counted := %s; k_invoked := %d |}", hx(q.Pkg), q.Queued, c10CoqRun(q), strings.Join(alts, "; "), c10CoqTrace(s, q), coqBool(q.Func == "act" && c10IsKnownVer(q.Ver)), q.Invoked))
+		rs = append(rs, fmt.Sprintf("{| k_pkg := %s; k_queued := %d; k_run := %s; k_alts := [%s]; k_trace := %s; k_counted := %s; k_invoked := %d |}", hx(q.Pkg), q.Queued, c10CoqRun(q), strings.Join(alts, "; "), c10CoqTrace(s, q), coqBool(c10Scripted(q.Func) && c10IsKnownVer(q.Ver)), q.Invoked))
 	}
 	return fmt.Sprintf("{| k_cfg := {| c_pool := %d; c_ht := %d; c_udp := %s |}; k_reqs := [%s]; k_obs := %s |}",
 		s.Cfg.Pool, s.Cfg.HT, coqBool(s.UDP), strings.Join(rs, ";\n   "), hxB(s.Obs))
@@ -742,7 +881,7 @@ func c10GenReq(rng *rand.Rand, cfg c10Cfg, id int32) c10Req {
 	q.MType = c10PickI32(rng, 0, 0, 0, 1, 2, 4, 8, 0x10, 0x80, 0x100, 0x7fffffff&^0x100, -1&^0x100)
 	switch x := rng.Intn(12); {
 	case x < 6:
-		q.Func = "act"
+		q.Func = c10PickFn(rng)
 	case x < 8:
 		q.Func = "tars_ping"
 	case x < 9:
@@ -807,7 +946,7 @@ func c10GenPlain(rng *rand.Rand, cfg c10Cfg, udp bool, tier string) c10Scn {
 	nslow := 0
 	for i := 0; i < n; i++ {
 		q := c10GenReq(rng, cfg, ids[i])
-		if q.Func == "act" && rng.Intn(4) == 0 && nslow < 2 {
+		if c10Scripted(q.Func) && rng.Intn(4) == 0 && nslow < 2 {
 			q.SleepMs = int32(slow) // with a handle timeout: overruns it (3x); without: merely slow
 			nslow++
 		}
@@ -831,7 +970,7 @@ func c10GenQueue(rng *rand.Rand, cfg c10Cfg, udp bool, tier string) c10Scn {
 	for i := 0; i < n; i++ {
 		q := c10GenReq(rng, cfg, ids[i])
 		if i < cfg.Pool {
-			q.Role, q.Func, q.SleepMs, q.Timeout = "blocker", "act", int32(block), c10PickI32(rng, 0, 60000)
+			q.Role, q.Func, q.SleepMs, q.Timeout = "blocker", c10PickFn(rng), int32(block), c10PickI32(rng, 0, 60000)
 			if !c10IsKnownVer(q.Ver) {
 				q.Ver = c10VerTars
 			}
@@ -855,7 +994,7 @@ func c10GenRaceHandle(rng *rand.Rand, cfg c10Cfg, udp bool, tier string) c10Scn 
 	ids := c10DistinctIDs(rng, n)
 	for i := 0; i < n; i++ {
 		q := c10GenReq(rng, cfg, ids[i])
-		q.Func = "act"
+		q.Func = c10PickFn(rng)
 		q.Ver = []int16{c10VerTars, c10VerJSON}[rng.Intn(2)]
 		q.Msg = c10RandBytes(rng, true)
 		q.Race = "handle"
@@ -899,17 +1038,17 @@ func c10GenSched(rng *rand.Rand, cfg c10Cfg, udp bool, tier string) c10Scn {
 	for i := 0; i < n; i++ {
 		q := c10GenReq(rng, cfg, ids[i])
 		if rng.Intn(3) != 0 {
-			q.Func = "act"
+			q.Func = c10PickFn(rng)
 		}
 		if i < 2 {
 			q.PType = c10OneWay // every scenario has one-way requests in both overrun positions
-			q.Func = "act"
+			q.Func = c10PickFn(rng)
 		}
 		switch k := (i + rng.Intn(2)*3) % 3; k {
 		case 0: // the deadline passes before Invoke is entered
 			q.Pre = int32(3 * cfg.HT)
 		case 1: // the handler overruns
-			if q.Func == "act" && c10IsKnownVer(q.Ver) {
+			if c10Scripted(q.Func) && c10IsKnownVer(q.Ver) {
 				q.SleepMs = int32(3 * cfg.HT)
 			}
 		}
@@ -933,7 +1072,22 @@ func c10Corpus() []c10Scn {
 		return s
 	}
 	boom := B("boom")
-	return []c10Scn{
+	// every shape of signature x version x (succeed, *tars.Error, plain error), two-way; the failing void function also one-way
+	var shapes []c10Scn
+	id := int32(1000)
+	for _, ver := range []int16{c10VerTars, c10VerTup, c10VerJSON} {
+		var reqs []c10Req
+		for _, fn := range c10ShapeNames {
+			for _, kind := range []int32{c10KOk, c10KTarsErr, c10KPlain} {
+				id++
+				reqs = append(reqs, c10Req{Ver: ver, ID: id, Func: fn, Kind: kind, Code: 4242, Msg: boom})
+			}
+		}
+		id++
+		reqs = append(reqs, c10Req{Ver: ver, PType: c10OneWay, ID: id, Func: "notify", Kind: c10KTarsErr, Code: 4242, Msg: boom})
+		shapes = append(shapes, mk(c10Cfg{0, 0}, ver == c10VerTup, reqs...))
+	}
+	return append(shapes, []c10Scn{
 		// Props/C10.v C10_error_code_on_wire_refuted (tup_error_witness): TUP, id 7, *tars.Error{78, "boom"}; and the same
 		// failure seen by a TARS and a JSON caller
 		mk(c10Cfg{0, 0}, false,
@@ -958,7 +1112,7 @@ func c10Corpus() []c10Scn {
 			c10Req{Ver: c10VerTars, ID: 13, Func: "act", Timeout: 100, Queued: 500, Role: "queued"},
 			c10Req{Ver: c10VerJSON, ID: 14, Func: "tars_ping", Timeout: 250, Queued: 500, Role: "queued"},
 			c10Req{Ver: c10VerTars, ID: 15, Func: "act", Timeout: 60000, Queued: 500, Role: "queued"}),
-	}
+	}...)
 }
 
 func c10Configs(tier string) []c10Cfg {
@@ -1132,11 +1286,11 @@ func c10Trunc(s string, n int) string {
 
 var c10Stats = struct {
 	mu                                sync.Mutex
-	clause, cfg, tries, races         map[string]int
+	clause, cfg, tries, races, shapes map[string]int
 	reqs, replies, scenarios, skipped int
 	traces                            int
 	retried                           []string
-}{clause: map[string]int{}, cfg: map[string]int{}, tries: map[string]int{}, races: map[string]int{}}
+}{clause: map[string]int{}, cfg: map[string]int{}, tries: map[string]int{}, races: map[string]int{}, shapes: map[string]int{}}
 
 func c10Class(s *c10Scn) string {
 	c10Stats.mu.Lock()
@@ -1169,6 +1323,9 @@ func c10Class(s *c10Scn) string {
 			way = "two-way(other type)"
 		}
 		c10Stats.clause[fmt.Sprintf("%s %s %s %s", c10Clause(s.Cfg, q), v, way, tr)]++
+		if c10Scripted(q.Func) && c10IsKnownVer(q.Ver) {
+			c10Stats.shapes[fmt.Sprintf("%s %s %s %s", q.Func, c10Script(q).Class, v, way)]++
+		}
 	}
 	if strings.HasPrefix(s.Kind, "race") {
 		rets := map[int32]int32{}
@@ -1242,6 +1399,7 @@ func c10Main(a Args) {
 			res.Stats["requests_per_configuration"] = c10Stats.cfg
 			res.Stats["requests_per_clause_version_way_transport"] = c10Stats.clause
 			res.Stats["tries_per_scenario"] = c10Stats.tries
+			res.Stats["requests_per_function_shape_outcome_version_way"] = c10Stats.shapes
 			res.Stats["race_outcomes_observed"] = c10Stats.races
 			res.Stats["timing_failures_not_reproduced"] = c10Stats.retried
 			res.Traces = c10Stats.traces // recorded S/R/T orders validated against the transition system (sched scenarios)
